@@ -80,3 +80,51 @@ theorem add_comments (eol : List Char) (al at' : List Triv) :
   have h2 : commentsOut (load eol .trailing at') = SemiLemmas.norm eol (commentsIn at') := load_comments eol .trailing at' 0 false
   simp only [addParens, sameLine, commentsOut_spaced, commentsOut_only, h1, h2]
 end StyluaModel.SugarLemmas
+
+namespace StyluaModel.TableFieldLemmas
+open StyluaModel.Trivia StyluaModel.Semi StyluaModel.HangOp StyluaModel.TableField
+open StyluaModel.SemiLemmas StyluaModel.TriviaLemmas StyluaModel.HangOpLemmas
+
+def blocksOf : List Triv → List (CKind × List Char)
+  | [] => []
+  | .comment (.block l) t :: r => (.block l, t) :: blocksOf r
+  | _ :: r => blocksOf r
+
+def linesOf (eol : List Char) : List Triv → List (CKind × List Char)
+  | [] => []
+  | .comment .line t :: r => (.line, fmtText eol .line t) :: linesOf eol r
+  | _ :: r => linesOf eol r
+
+theorem rawBlocks_comments (l : List Triv) : commentsOut (rawBlocks l) = blocksOf l := by
+  induction l with
+  | nil => rfl
+  | cons x r ih =>
+    cases x with
+    | ws b => simpa [rawBlocks, blocksOf] using ih
+    | comment k t => cases k <;> simp [rawBlocks, blocksOf, commentsOut, ih]
+
+theorem movedLines_comments (eol : List Char) (l : List Triv) : commentsOut (movedLines eol l) = linesOf eol l := by
+  induction l with
+  | nil => rfl
+  | cons x r ih =>
+    cases x with
+    | ws b => simpa [movedLines, linesOf] using ih
+    | comment k t => cases k <;> simp [movedLines, linesOf, commentsOut, commentsOut_append, fmtComment, ih]
+
+theorem field_comments (eol : List Char) (vt : List Triv) (sep : Option (List Triv × List Triv)) :
+    commentsOut (outs (afterField eol vt sep)) =
+      blocksOf vt ++ (match sep with
+        | some (pl, pt) => SemiLemmas.norm eol (commentsIn pl) ++ SemiLemmas.norm eol (commentsIn pt)
+        | none => []) ++ linesOf eol vt := by
+  cases sep with
+  | none =>
+    simp only [afterField, outs, List.filterMap_append, List.filterMap_map, Function.comp_def]
+    simp [commentsOut_append, sameLine, commentsOut_spaced, rawBlocks_comments, movedLines_comments, commentsOut]
+  | some p =>
+    obtain ⟨pl, pt⟩ := p
+    have h1 : commentsOut (load eol .leading pl) = SemiLemmas.norm eol (commentsIn pl) := load_comments eol .leading pl 0 false
+    have h2 : commentsOut (load eol .trailing pt) = SemiLemmas.norm eol (commentsIn pt) := load_comments eol .trailing pt 0 false
+    simp only [afterField, outs, List.filterMap_append, List.filterMap_map, Function.comp_def]
+    simp [commentsOut_append, sameLine, commentsOut_spaced, rawBlocks_comments, movedLines_comments, commentsOut, h1, h2,
+      List.append_assoc]
+end StyluaModel.TableFieldLemmas
